@@ -807,9 +807,12 @@ where
             } else {
                 self.dispatch_job(job);
             }
-            return Ok(());
+            // NOTE: no early return. If the worker actor is already stopping the dispatch
+            // above fails and the job is put back into the queue, which therefore must
+            // still be held to the discard limit below.
+        } else {
+            self.message_queue.push_back(job);
         }
-        self.message_queue.push_back(job);
 
         if let Some((limit, DiscardMode::Oldest)) = self.discard_settings.get_limit_and_mode() {
             // load-shed the OLDEST jobs
